@@ -99,6 +99,11 @@ def build_sub(ctor, ch):
     a = ch[0]
     b = ch[1] if len(ch) > 1 else int
     c = ch[2] if len(ch) > 2 else str
+    if ctor.startswith('arity:'):
+        import collections, contextlib, re  # noqa
+        _, origin, n = ctor.split(':')
+        return types.GenericAlias(eval(origin, {'cabc': cabc, 'collections': collections, 'contextlib': contextlib, 're': re,
+                                                'tuple': tuple, 'type': type, 'frozenset': frozenset, 'set': set}), tuple(ch[:int(n)]))
     if ctor == 'list':
         return list[a]
     if ctor == 'List':
